@@ -3,7 +3,9 @@
 package backend
 
 import (
+	"errors"
 	"net"
+	"sync"
 
 	"github.com/XiaoMi/Gaea/mysql"
 	"github.com/XiaoMi/Gaea/util"
@@ -14,9 +16,18 @@ import (
 // Everything the C24 harness exercises (Get / Recycle / Put / tryReuse / SetCapacity /
 // Close) is the real code; only the network dial is replaced.
 func VerifNewPool(capacity, maxCapacity int) (ConnectionPool, error) {
+	// addr "fake" has no port: Reconnect's dial fails at once, without any network access
 	cp := &connectionPoolImpl{addr: "fake", capacity: capacity, maxCapacity: maxCapacity}
+	st := &verifBackendState{}
+	verifBackend = st
 	factory := func() (util.Resource, error) {
-		c1, _ := net.Pipe()
+		st.mu.Lock()
+		defer st.mu.Unlock()
+		if st.down {
+			return nil, errors.New("verif: backend is down")
+		}
+		c1, c2 := net.Pipe()
+		st.peers = append(st.peers, c2)
 		dc := &DirectConnection{conn: mysql.NewConn(c1), status: mysql.ServerStatusAutocommit}
 		return &pooledConnectImpl{directConnection: dc, pool: cp}, nil
 	}
@@ -38,4 +49,31 @@ func VerifPoolCounters(p ConnectionPool) (capacity, inUse, available, idle int64
 		return 0, 0, 0, 0, false
 	}
 	return rp.Capacity(), rp.InUse(), rp.Available(), int64(util.VerifChanLen(rp)), true
+}
+
+// verifBackendState holds the server side of every in-memory connection of one pool.
+type verifBackendState struct {
+	mu    sync.Mutex
+	down  bool
+	peers []net.Conn
+}
+
+// one pool per execution: the state of the pool built last
+var verifBackend *verifBackendState
+
+// VerifKillBackend closes the server side of every connection of the pool built last and makes
+// its factory fail from now on: the next ping on an idle connection fails, and so does the
+// reconnect (environment event "the backend went away").
+func VerifKillBackend(ConnectionPool) {
+	st := verifBackend
+	if st == nil {
+		return
+	}
+	st.mu.Lock()
+	defer st.mu.Unlock()
+	st.down = true
+	for _, c := range st.peers {
+		c.Close()
+	}
+	st.peers = nil
 }
